@@ -59,7 +59,7 @@ class C19(Check):
     ASSUMPTIONS = ["closure computed by the abstract namespace model from the scenario (never from pydsdl)"]
 
     def generate(self, rng: random.Random, r: int, tier: str) -> dict:
-        ws = G.gen_workspace(rng, roots=(2, 3), defs=(3, 10), p_ref=0.35, p_cross_root=0.7)
+        ws = G.gen_workspace(rng, roots=(2, 3), defs=(3, 10), p_ref=0.35, p_cross_root=0.7, p_port=rng.choice([0.15, 0.4]))
         uni = Universe(ws)
         nroots = len(ws["roots"])
         scn: dict = {"ws": ws, "fmt": {}, "symlinks": W.symlinks_for(ws), "pre": [], "reads": [], "edits": []}
@@ -103,6 +103,21 @@ class C19(Check):
                 sec0 = uni.defs[k]["secs"][0]
                 sec0["items"].append(["raw", "%s.%d.%d case_ref_field" % (".".join(comps[:-1] + [alt]), x["ver"][0], x["ver"][1]), []])
                 scn["closure_error"] = "case_ref"
+                case_target = T.def_key(x)
+        elif rng.random() < 0.12 and closure and out_keys:
+            # an error inside the closure that names an out-of-closure definition: a reference to a version that does not exist
+            # while other versions of that name do (they are bystanders: a diagnostic may list them, it must not evaluate them)
+            k = rng.choice(sorted(closure))
+            x = uni.defs[rng.choice(out_keys)]
+            vers = {tuple(y["ver"]) for y in uni.defs.values() if y["name"] == x["name"]}
+            cand = [(x["ver"][0], m) for m in range(0, 12) if (x["ver"][0], m) not in vers and (x["ver"][0], m) != (0, 0)] + [(x["ver"][0] + 1, 0)]
+            cand = [v for v in cand if v not in vers]
+            if cand and not T.is_service(x):
+                v = rng.choice(cand)
+                sec0 = uni.defs[k]["secs"][0]
+                sec0["items"].append(["raw", "%s.%d.%d missing_version_field" % (x["name"], v[0], v[1]), []])
+                scn["closure_error"] = "missing_version_ref"
+                scn["protected"] = [x["name"].lower(), v[0], v[1]]  # no edit may create the missing version
                 case_target = T.def_key(x)
         elif rng.random() < 0.17 and closure:
             k = rng.choice(sorted(closure))
@@ -153,12 +168,20 @@ class C19(Check):
                         for dd in uni.defs.values():
                             if dd.get("port") is not None and rng.random() < 0.7:
                                 port = dd["port"]
+                        tp = [k0 for k0 in targets if uni.defs[k0].get("port") is not None]
+                        if tp and not is_rn and rng.random() < 0.8:
+                            # an unrequested sibling of a read_files target whose file name carries the target's port number
+                            k0 = rng.choice(tp)
+                            port = uni.defs[k0]["port"]
+                            d = rng.choice([uni.file_of(k0).rsplit("/", 1)[0], uni.roots[uni.root_of[k0]]["dir"]])
                         path = "%s/%d.Zq%d.%d.%d.%s" % (d, port, rng.randint(0, 9), rng.randint(0, 3), rng.randint(1, 3), rng.choice(["dsdl", "uavcan"]))
                     elif style < 0.85:
                         path = "%s/%s/Zq%d.1.0.dsdl" % (d, rng.choice(["bad-dir", "uint8", "_x_", "UPPER", "9lives"]), rng.randint(0, 9))
                     else:
                         path = "%s/Zq%d.%d.%d.dsdl" % (d, rng.randint(0, 9), rng.choice([0, 1, 255, 256, 999]), rng.choice([0, 1, 300]))
                     if decode_path(uni, path) in closure_ids or path in {uni.file_of(k) for k in closure}:
+                        continue
+                    if scn.get("protected") and decode_path(uni, path) == tuple(scn["protected"]):
                         continue
                     edits.append({"op": "write", "path": path, "text": text, "kind": "add:" + name})
                 elif r0 < 0.9 and out_keys:
@@ -221,6 +244,8 @@ class C19(Check):
                         if is_rn and (p.startswith(tdir + "/")):
                             raise InvalidScenario("edit inside the target root of read_namespace: " + p)
                         ident = decode_path(uni, p) or decode_extra(scn, uni, p)
+                        if ident is not None and scn.get("protected") and ident == tuple(scn["protected"]):
+                            raise InvalidScenario("edit creates the version whose absence is the planted closure error: " + p)
                         if ident is not None and ident in closure_ids:
                             # allowed only for a twin of a target that no closure member references (nothing resolves it)
                             if ident in referenced_ids or p in target_files:
